@@ -642,9 +642,14 @@ def main(argv=None):
         "wall_s": round(wall, 2),
         "violations": len(violations),
     }
-    os.makedirs(os.path.join(ROOT, "evidence"), exist_ok=True)
-    with open(os.path.join(ROOT, "evidence", f"{prop}.json"), "w") as fh:
-        json.dump(_jsonable(ev), fh, indent=1)
+    # a run restricted with --only covers part of the property: its record goes to the
+    # (ignored) work directory and never replaces evidence/<id>.json
+    ev_dir = os.path.join(ROOT, "evidence") if a.only is None else os.path.join(ROOT, ".work", "evidence-partial")
+    os.makedirs(ev_dir, exist_ok=True)
+    ev = _jsonable(ev)
+    with open(os.path.join(ev_dir, f"{prop}.json"), "w") as fh:
+        json.dump(ev, fh, indent=1)
+    _validate_evidence(ev)
 
     if a.write_baseline:
         p = os.path.join(ROOT, "baseline_obligations.json")
@@ -667,6 +672,21 @@ def main(argv=None):
     if undecided:
         return 2
     return 0
+
+
+def _validate_evidence(ev):
+    """Self-check of the record just written against the committed copy of the evidence schema
+    (reported on stderr; the verdict of the check is not changed by it)."""
+    try:
+        import jsonschema
+
+        schema = json.load(open(os.path.join(ROOT, "vk", "EVIDENCE.schema.json")))
+        jsonschema.validate(ev, schema)
+        c = ev["coverage"]
+        if ev["level"] == "proof" and not ev.get("violations") and c["obligations"] != c["discharged"]:
+            raise ValueError(f"discharged ({c['discharged']}) != obligations ({c['obligations']}) on a run without violations")
+    except Exception as e:  # noqa: BLE001
+        print(f"EVIDENCE-INVALID property={ev.get('property_id')}: {str(e).splitlines()[0][:300]}", file=sys.stderr)
 
 
 def _raised_in_repo(e):
